@@ -65,7 +65,7 @@ func genNetConn(r *Rng, tier string, stat func(string)) []string {
 		stat("wrongtype")
 	}
 	for _, side := range []string{"read", "write"} {
-		for _, when := range []string{"idle-past", "idle-future", "active"} {
+		for _, when := range []string{"idle-past", "idle-future", "active", "active-setpast", "active-setfuture"} {
 			for k := 0; k < 2; k++ {
 				out = append(out, fmt.Sprintf("kind=deadline side=%s when=%s", side, when))
 				stat("deadline")
@@ -233,6 +233,41 @@ func runNetConn(kv map[string]string) string {
 				_, e3 = a.Write([]byte("data"))
 			}
 			return fmt.Sprintf("first=%s second=%s afterreset=%s", ncErr(e1), ncErr(e2), ncErr(e3))
+		case "active-setpast", "active-setfuture":
+			// the deadline is set by another goroutine WHILE the call is blocked (in the past: it fires at once; or shortly ahead)
+			if !read {
+				stallPair(c)
+			}
+			res := make(chan error, 1)
+			go func() {
+				if read {
+					_, e := a.Read(make([]byte, 4))
+					res <- e
+					return
+				}
+				var e error
+				big := make([]byte, 1<<20)
+				for i := 0; i < 200 && e == nil; i++ {
+					_, e = a.Write(big)
+				}
+				res <- e
+			}()
+			time.Sleep(40 * time.Millisecond)
+			if kv["when"] == "active-setpast" {
+				set(time.Now().Add(-time.Second))
+			} else {
+				set(time.Now().Add(30 * time.Millisecond))
+			}
+			var e1 error
+			returned := true
+			select {
+			case e1 = <-res:
+			case <-time.After(3 * time.Second):
+				returned = false
+			}
+			time.Sleep(30 * time.Millisecond)
+			e2 := c.Write(ctx, websocket.MessageBinary, []byte("x"))
+			return fmt.Sprintf("call=%v connclosed=%v", returned && e1 != nil, e2 != nil)
 		case "active":
 			// the deadline fires during an active call: that call fails and the connection is closed
 			set(time.Now().Add(60 * time.Millisecond))
